@@ -61,7 +61,7 @@ CHECKS = {
                 technique="TLA+ fault/schedule model (IoFaults.tla, TLC) + exhaustive fault enumeration on the real decoders judged by FaultTrace.tla"),
     "C14": dict(level="model_checking", ref="§4 C14, §2.7",
                 text="AttrWire.tla transcribes docs/attributes.md (its worked examples are ASSUMEs); TLC decodes every blob Attributes::to_writer produced for generated maps and requires the decoded entries to be the map (String as BinaryString, rotations snapped like CFrames), the reader's result to equal it, and empty map <-> zero bytes. Blobs from an independent encoder written from the document are first held to AttrWire, then must decode to the described values with the real reader. The same predicate judges the Attributes property inside binary and XML files.",
-                note="Values sampled; the envelope slot of colour keypoints is written as zero by the foreign encoder. Clause `files`: the bytes both file formats store for the Attributes property of three sibling instances (read back without the database) are the blobs; clause `sink-independent`.",
+                note="Values sampled; the envelope slot of colour keypoints is written as zero by the foreign encoder. Clause `files`: the bytes both file formats store for the Attributes property of three sibling instances (read back without the database) are the blobs; clauses `sink-independent` (a sink taking three bytes per call receives the same blob) and `source-independent` (a source handing the blob over in pieces of 1, 2, 3 bytes decodes to the same map).",
                 technique="TLA+ transcription of docs/attributes.md (AttrWire.tla) + trace validation + independent encoder"),
     "C15": dict(level="model_checking", ref="§4 C15, §2.5-2.6",
                 text="For every Migrate descriptor of the exported database, every legacy value (all Enum.Font items, all BrickColor numbers, both booleans, URIs) and {legacy only, legacy + explicit new}, the four paths (binary write, XML write, binary read, XML read; read paths in both chunk/element orders) are executed and TLC evaluates MigIssues: legacy name absent, new property present, value = the specified migration (colour table, inset enum, content URI; Font uninterpreted), explicit value wins, all paths agree; sibling cases put two instances with different legacy values and a bare one in one file. The writer's alias choice is also model-checked (MCBinaryColumns: ExplicitWins).",
